@@ -215,14 +215,190 @@ theorem hit_id (s : St) (k qid : Nat) (lazy : Bool) (cfg : Cfg) (id : Nat) (vals
     cases lazy <;> simp only [Bool.false_eq_true, ↓reduceIte] at hs <;> split at hs <;>
       (injection hs with h; injection h with h1 _; exact h1.symm)
 
+/-! ## queries that miss at the same time; what a caller sees through its own handle -/
+
+theorem step_served (s : St) (hi : s.Inv) (op : Op) (id : Nat) (vals : List Nat)
+    (hs : (s.step allDeep op).2.served = some (id, vals)) : (s.step allDeep op).2.expected = some vals := by
+  cases op with
+  | hit k lazy qid => exact (hit_serves_snapshot s hi k qid lazy id vals hs).2
+  | produce vals' => simp [St.step] at hs
+  | store k c =>
+    simp only [St.step] at hs
+    split at hs <;> simp [allDeep] at hs
+  | mutate c i v =>
+    simp only [St.step] at hs
+    split at hs
+    · simp at hs
+    · split at hs <;> simp at hs
+
+theorem xstep_miss (s : St) (k qid : Nat) (vals : List Nat) (fl : Option Nat) :
+    s.xstep allDeep (.miss k qid vals fl) =
+      (((s.step allDeep (.produce vals)).1.step allDeep (.store k s.callers.length)).1,
+        ⟨⟨some (qid, (s.heap.alloc vals).1.read (s.heap.alloc vals).2), some vals⟩, none⟩) := by
+  simp [St.xstep, allDeep]
+
+theorem xinv_step (s : St) (op : XOp) (hi : s.Inv) : (s.xstep allDeep op).1.Inv := by
+  cases op with
+  | base op => exact inv_step s op hi
+  | miss k qid vals fl => rw [xstep_miss]; exact inv_step _ _ (inv_step s _ hi)
+  | look c => exact hi
+
+theorem disj_append (s : St) (hi : s.Inv) (hd : s.Disj) (vals : List Nat) :
+    (s.callers ++ [(s.heap.alloc vals).2]).Pairwise (fun a b => ∀ l ∈ a, l ∉ b) := by
+  rw [List.pairwise_append]
+  refine ⟨hd, List.pairwise_singleton _ _, ?_⟩
+  intro a ha b hb l hl hin
+  simp only [List.mem_singleton] at hb
+  subst hb
+  have h1 := ((alloc_spec vals s.heap).2.1 l hin).1
+  have h2 := hi.callersOk a ha l hl
+  omega
+
+theorem disj_step (s : St) (op : Op) (hi : s.Inv) (hd : s.Disj) : (s.step allDeep op).1.Disj := by
+  cases op with
+  | produce vals => exact disj_append s hi hd vals
+  | store k c =>
+    simp only [St.step]
+    cases hcs : s.callers[c]? with
+    | none => exact hd
+    | some ls => simp only [allDeep, ↓reduceIte]; exact hd
+  | hit k lazy qid =>
+    simp only [St.step]
+    cases hl : lookup s.cache k with
+    | none => exact hd
+    | some e0 =>
+      have hdeep : (if lazy then allDeep.lazyHitDeep else allDeep.hitDeep) = true := by cases lazy <;> rfl
+      simp only [hdeep, ↓reduceIte]
+      exact disj_append s hi hd _
+  | mutate c i v =>
+    simp only [St.step]
+    cases hcs : s.callers[c]? with
+    | none => exact hd
+    | some ls =>
+      simp only
+      cases hli : ls[i]? with
+      | none => exact hd
+      | some l => exact hd
+
+theorem xdisj_step (s : St) (op : XOp) (hi : s.Inv) (hd : s.Disj) : (s.xstep allDeep op).1.Disj := by
+  cases op with
+  | base op => exact disj_step s op hi hd
+  | miss k qid vals fl => rw [xstep_miss]; exact disj_step _ _ (inv_step s _ hi) (disj_step s _ hi hd)
+  | look c => exact hd
+
+theorem disj_at (s : St) (hd : s.Disj) (c c' : Nat) (a b : List Nat) (hne : c ≠ c')
+    (ha : s.callers[c]? = some a) (hb : s.callers[c']? = some b) : ∀ l ∈ a, l ∉ b := by
+  have hp := List.pairwise_iff_getElem.mp hd
+  obtain ⟨h1, e1⟩ := List.getElem?_eq_some_iff.mp ha
+  obtain ⟨h2, e2⟩ := List.getElem?_eq_some_iff.mp hb
+  rcases Nat.lt_or_gt_of_ne hne with hlt | hgt
+  · have := hp c c' h1 h2 hlt
+    rw [e1, e2] at this
+    exact this
+  · have := hp c' c h2 h1 hgt
+    rw [e1, e2] at this
+    intro l hl hin
+    exact this l hin hl
+
+/-- an operation other than a write through handle `c'` itself leaves the handle and what it reads alone -/
+theorem step_keeps (s : St) (hi : s.Inv) (hd : s.Disj) (op : Op) (c' : Nat) (ls : List Nat)
+    (hc : s.callers[c']? = some ls) (hne : ∀ i v, op ≠ .mutate c' i v) :
+    (s.step allDeep op).1.callers[c']? = some ls ∧ (s.step allDeep op).1.heap.read ls = s.heap.read ls := by
+  have hlt : c' < s.callers.length := (List.getElem?_eq_some_iff.mp hc).1
+  have hold : ∀ l ∈ ls, l < s.heap.next := hi.callersOk ls (List.mem_of_getElem? hc)
+  cases op with
+  | produce vals =>
+    simp only [St.step]
+    exact ⟨by rw [List.getElem?_append_left hlt]; exact hc, read_alloc_old _ _ _ hold⟩
+  | store k c =>
+    simp only [St.step]
+    cases hcs : s.callers[c]? with
+    | none => exact ⟨hc, rfl⟩
+    | some ls0 => simp only [allDeep, ↓reduceIte]; exact ⟨hc, read_alloc_old _ _ _ hold⟩
+  | hit k lazy qid =>
+    simp only [St.step]
+    cases hl : lookup s.cache k with
+    | none => exact ⟨hc, rfl⟩
+    | some e0 =>
+      have hdeep : (if lazy then allDeep.lazyHitDeep else allDeep.hitDeep) = true := by cases lazy <;> rfl
+      simp only [hdeep, ↓reduceIte]
+      exact ⟨by rw [List.getElem?_append_left hlt]; exact hc, read_alloc_old _ _ _ hold⟩
+  | mutate c i v =>
+    simp only [St.step]
+    cases hcs : s.callers[c]? with
+    | none => exact ⟨hc, rfl⟩
+    | some ls0 =>
+      simp only
+      cases hli : ls0[i]? with
+      | none => exact ⟨hc, rfl⟩
+      | some l =>
+        refine ⟨hc, ?_⟩
+        have hcc : c ≠ c' := fun e => hne i v (by rw [e])
+        exact read_write_other _ _ _ _ (disj_at s hd c c' ls0 ls hcc hcs hc l (List.mem_of_getElem? hli))
+
+/-- **Answers handed out around the cache are private.** With deep copies at the store and hit sites and every missing
+query keeping the response of its own exchange, whatever happens — other queries produce, store, hit, miss at the same
+time, rewrite what they hold — the message a caller holds reads the same before and after, unless the operation is a
+write through that very handle. -/
+theorem others_cannot_change_what_a_caller_holds (s : St) (hi : s.Inv) (hd : s.Disj) (op : XOp) (c' : Nat)
+    (hlt : c' < s.callers.length) (hne : ∀ i v, op ≠ .base (.mutate c' i v)) :
+    ((s.xstep allDeep op).1.xstep allDeep (.look c')).2.seen = (s.xstep allDeep (.look c')).2.seen := by
+  obtain ⟨ls, hc⟩ : ∃ ls, s.callers[c']? = some ls := ⟨s.callers[c'], List.getElem?_eq_getElem hlt⟩
+  have goal : ∀ s' : St, s'.callers[c']? = some ls → s'.heap.read ls = s.heap.read ls →
+      (s'.xstep allDeep (.look c')).2.seen = (s.xstep allDeep (.look c')).2.seen := by
+    intro s' h1 h2
+    simp only [St.xstep, h1, hc, Option.map_some, h2]
+  cases op with
+  | base op =>
+    have := step_keeps s hi hd op c' ls hc (fun i v e => hne i v (by rw [e]))
+    exact goal _ this.1 this.2
+  | miss k qid vals fl =>
+    rw [xstep_miss]
+    have k1 := step_keeps s hi hd (.produce vals) c' ls hc (fun i v e => by cases e)
+    have k2 := step_keeps _ (inv_step s _ hi) (disj_step s _ hi hd) (.store k s.callers.length) c' ls k1.1 (fun i v e => by cases e)
+    exact goal _ k2.1 (k2.2.trans k1.2)
+  | look c => exact goal _ hc rfl
+
+theorem xrun_inv (ops : List XOp) : ∀ (s : St), s.Inv → s.Disj → (s.xrun allDeep ops).1.Inv ∧ (s.xrun allDeep ops).1.Disj := by
+  induction ops with
+  | nil => intro s h d; exact ⟨h, d⟩
+  | cons op ops ih => intro s h d; exact ih _ (xinv_step s op h) (xdisj_step s op h d)
+
+/-- hits and misses alike are handed exactly the expected contents (the stored ones / their own upstream's) -/
+theorem xserved_is_expected (ops : List XOp) : ∀ (s : St), s.Inv →
+    ∀ o ∈ (s.xrun allDeep ops).2, ∀ id vals, o.out.served = some (id, vals) → o.out.expected = some vals := by
+  induction ops with
+  | nil => intro s _ o ho; simp [St.xrun] at ho
+  | cons op ops ih =>
+    intro s hi o ho id vals hs
+    simp only [St.xrun, List.mem_cons] at ho
+    rcases ho with rfl | ho
+    · cases op with
+      | base op => exact step_served s hi op id vals hs
+      | miss k qid vals' fl =>
+        rw [xstep_miss] at hs ⊢
+        simp only [Option.some.injEq, Prod.mk.injEq] at hs ⊢
+        rw [← hs.2, (alloc_spec vals' s.heap).2.2.1]
+      | look c => simp [St.xstep] at hs
+    · exact ih _ (xinv_step s op hi) o ho id vals hs
+
+/-- a query that is handed a struct copy of another in-flight query's response: a write through the first query's
+handle changes what the second one holds (and the other way round) -/
+example : ((({} : St).xrun ⟨true, true, true, false⟩ [.miss 1 11 [7, 8] none, .miss 1 12 [7, 8] (some 0), .look 1,
+      .base (.mutate 0 0 99), .look 1]).2.map (fun o => o.seen)) = [none, none, some [7, 8], none, some [99, 8]] := by decide
+
+example : ((({} : St).xrun allDeep [.miss 1 11 [7, 8] none, .miss 1 12 [7, 8] (some 0), .look 1,
+      .base (.mutate 0 0 99), .look 1, .base (.hit 1 false 5)]).2.map (fun o => (o.seen, o.out.served))) =
+    [(none, some (11, [7, 8])), (none, some (12, [7, 8])), (some [7, 8], none), (none, none), (some [7, 8], none), (none, some (5, [7, 8]))] := by decide
+
 /-! ## witnesses: a shallow copy at any one site breaks it -/
 
 /-- the store keeps the caller's locations: a later write through the caller's handle changes what is served -/
-example : ((({} : St).run ⟨false, true, true⟩ [.produce [7, 8], .store 1 0, .mutate 0 0 99, .hit 1 false 5]).2.getLast?.map
+example : ((({} : St).run ⟨false, true, true, true⟩ [.produce [7, 8], .store 1 0, .mutate 0 0 99, .hit 1 false 5]).2.getLast?.map
     (fun o => (o.served, o.expected))) = some (some (5, [99, 8]), some [7, 8]) := by decide
 
 /-- a stale hit hands out the cache's own locations: a write through the served handle changes the next hit -/
-example : ((({} : St).run ⟨true, true, false⟩ [.produce [7, 8], .store 1 0, .hit 1 true 5, .mutate 1 1 42, .hit 1 true 6]).2.getLast?.map
+example : ((({} : St).run ⟨true, true, false, true⟩ [.produce [7, 8], .store 1 0, .hit 1 true 5, .mutate 1 1 42, .hit 1 true 6]).2.getLast?.map
     (fun o => (o.served, o.expected))) = some (some (6, [7, 42]), some [7, 8]) := by decide
 
 /-! ## tie to the source -/
@@ -230,7 +406,8 @@ example : ((({} : St).run ⟨true, true, false⟩ [.produce [7, 8], .store 1 0, 
 theorem facts_guard :
     Gen.Facts.c10StoreCopies = some true ∧ Gen.Facts.c10CopyNoOptDeep = some true ∧ Gen.Facts.c10HitCopies = some true ∧
     Gen.Facts.c10LazyHitCopies = some true ∧ Gen.Facts.c10ItemRespWriters = some 2 ∧ Gen.Facts.c10ExecSetsId = some true ∧
-    Gen.Facts.c10LazyUpdateUsesContextCopy = some true ∧ Gen.Facts.c10DumpLoadUnpacksFresh = some true := by decide
+    Gen.Facts.c10LazyUpdateUsesContextCopy = some true ∧ Gen.Facts.c10DumpLoadUnpacksFresh = some true ∧
+    Gen.Facts.c10MissPrivate = some true := by decide
 
 /-! ## non-vacuity -/
 
